@@ -26,7 +26,7 @@ REQUIRED_MONITORS = ["contract:gmean", "contract:hmean", "contract:amean", "cont
 REQUIRED_REACH = {"constraints.py": ["gmean", "hmean", "amean", "apply_constraint", "to_output_scale",
                                      "to_grad_input_scale", "to_left_grad_scale", "to_right_grad_scale"],
                   "core/functional.py": ["scale_elementwise"]}
-MIN_NONTRIVIAL = {"quick": 200, "thorough": 3000}
+MIN_NONTRIVIAL = {"quick": 200, "thorough": 30000}
 
 RULES7 = ["gmean", "hmean", "amean", "to_output_scale", "to_grad_input_scale", "to_left_grad_scale", "to_right_grad_scale"]
 COLLAPSE_OPS = ["gelu", "silu", "softmax", "matmul", "linear", "linear_readout", "conv1d", "add"]
